@@ -11,6 +11,7 @@ Groups (DESIGN 3/C01):
   tv       translation validation of the transliteration vs. the compiled .so
 """
 import math
+from fractions import Fraction
 import os
 import warnings
 
@@ -44,7 +45,12 @@ META = dict(
             'rotations (symbolic point on the unit circle); subpixel kernels: '
             'symbolic pixel corner / sizes / rotation, subpixels 1..3 '
             '(thorough 4; rotated shapes 1..2, thorough 3); translation '
-            'validation on 400 (thorough 3000) concrete grids'),
+            'validation on 400 (thorough 3000) concrete grids; public-mask '
+            'lattice: 6 shapes x centres {0,.25,.5,-.3}x{0,.5,-.37} x sizes '
+            '{.43,1.07,2.51,3.7} x ratios {1,.6,.25} x 5 angles x {exact, '
+            'center, subpixel 2, subpixel 5} + 13 degenerate configurations; '
+            'symbolic zero-result harness of the real triangle routine: '
+            'symbolic pixel position, 4 concrete axis pairs, theta = 0'),
     assumptions=['floats as reals: the float64 sliver of from_float '
                  '(x+0.5 rounding onto an integer) is outside the claim '
                  '(DESIGN 2.3)', 'sin/cos modelled as a point on the unit '
@@ -58,8 +64,9 @@ META = dict(
            'photutils.geometry *_overlap_grid recorder in the edges group',
            '.pyx -> Python transliteration (vf/pyx2py.py)'],
     outside=['that the arc terms of the exact circle/ellipse kernels equal '
-             'true circular-segment areas (asin): analytic-area sum and '
-             '[0,1] range of exact weights', 'subpixels > 4',
+             'true circular-segment areas (asin) for symbolic inputs: the '
+             'analytic-area sum and the [0,1] range of exact weights are '
+             'decided on the public-mask lattice only', 'subpixels > 5',
              'float rounding'],
     min_obligations=50,
 )
@@ -983,6 +990,94 @@ def _run_reassign(case):
     return c09._run_aper(dict(aper=case['aper'], len=case['len']))
 
 
+def _zero_concrete(xmin, ymin, rx, ry):
+    """real compiled kernel: weight of the unit pixel at (xmin, ymin) for an
+    axis-aligned ellipse at the origin, and a 60x60 sampling of the truth."""
+    from photutils.geometry import elliptical_overlap_grid
+    got = float(elliptical_overlap_grid(xmin, xmin + 1, ymin, ymin + 1, 1, 1,
+                                        rx, ry, 0.0, 1, 1)[0, 0])
+    g = (np.arange(60) + 0.5) / 60
+    xx, yy = np.meshgrid(xmin + g, ymin + g)
+    truth = float((((xx / rx) ** 2 + (yy / ry) ** 2) < 1).mean())
+    return got, truth
+
+
+def _run_exactzero(case):
+    """elliptical_overlap_single_exact (transliterated, incl. the real
+    triangle/unit-circle routine) on a symbolic unit pixel and a symbolic
+    axis-aligned ellipse, directed at the branches that return the literal
+    0 without computing an arc: whenever the kernel answers 0 no sample
+    point of the open pixel may lie strictly inside the ellipse."""
+    from .. import facade
+    facade.install()
+    ns = _load_pyx(True)
+    mode = case['mode']
+    cnt = dict(n=0)
+    samples = []
+    R = z3.RealVal
+
+    def fn(ctx):
+        xmin, ymin = ctx.real('xmin'), ctx.real('ymin')
+        # semi-axes from a finite domain (division by a constant keeps the
+        # frame map linear; z3's NRA engine does not finish with symbolic
+        # semi-axes), pixel position symbolic
+        frx, fry = ctx.choice('axes', ((2.5, 0.625), (1.0, 1.0), (3.0, 1.75),
+                                       (0.75, 0.5)))
+        rx, ry = SymReal(R(Fraction(frx))), SymReal(R(Fraction(fry)))
+        ctx.notes['axes'] = (frx, fry)
+        ctx.assume(z3.And(xmin.e >= -5, xmin.e <= 5,
+                          ymin.e >= -5, ymin.e <= 5))
+        corners = [(xmin.e, ymin.e), (xmin.e + 1, ymin.e),
+                   (xmin.e + 1, ymin.e + 1), (xmin.e, ymin.e + 1)]
+
+        def lev(pt):      # < 1 inside, scaled to avoid divisions
+            x, y = pt
+            return x * x * ry.e * ry.e + y * y * rx.e * rx.e, \
+                rx.e * rx.e * ry.e * ry.e
+        if mode == 'corner-on-curve':
+            a, b = lev(corners[0])
+            ctx.assume(a == b)
+            for pt in corners[1:]:
+                a, b = lev(pt)
+                ctx.assume(a > b * R('21/20'))
+        else:             # every corner clearly outside
+            for pt in corners:
+                a, b = lev(pt)
+                ctx.assume(a > b * R('21/20'))
+        try:
+            res = ns['elliptical_overlap_single_exact'](
+                xmin, ymin, xmin + 1, ymin + 1, frx, fry, 0.0)
+        except ZeroDivisionError:
+            raise OutOfModel('division by zero in the kernel')
+        z = z3.simplify(term(const(res)))
+        cnt['n'] += 1
+        if not (z3.is_rational_value(z) and z.numerator_as_long() == 0):
+            return
+        conds = []
+        for fx, fy in ((R('1/2'), R('1/2')), (R('1/4'), R('1/4')),
+                       (R('3/4'), R('1/4')), (R('1/4'), R('3/4')),
+                       (R('3/4'), R('3/4'))):
+            a, b = lev((xmin.e + fx, ymin.e + fy))
+            if case.get('twin'):
+                conds.append(a >= b * 2)
+            else:
+                conds.append(a >= b * R('9/10'))
+        r_, m = ctx.holds(z3.And(conds), 'zero-means-disjoint')
+        if r_ == 'sat':
+            ctx.find(f'exact:ellipse:zero-for-overlapping-pixel:{mode}',
+                     'elliptical_overlap_single_exact returns 0 for a pixel '
+                     'with a sample point well inside the ellipse',
+                     ctx.witness(m), params=dict(kind='exactzero', mode=mode,
+                                                 axes=[frx, fry],
+                                                 twin=bool(case.get('twin'))))
+        if not samples:
+            samples.append(dict(mode=mode))
+
+    _, st, f = explore(fn, max_seconds=case.get('seconds', 120),
+                       timeout_ms=30000)
+    return dict(stats=st, findings=f, samples=samples, nontrivial=cnt['n'])
+
+
 # ---- end-to-end masks of the public classes (concrete, solver-enumerated) ---
 AREA_SHAPES = ('circle', 'ellipse', 'rectangle', 'cann', 'eann', 'rann')
 
@@ -1160,6 +1255,7 @@ def run_case(case):
             'wiring': _run_wiring, 'kernel': _run_kernel,
             'exactsplit': _run_exactsplit, 'exactcore': _run_exactcore,
             'exactellipse': _run_exactellipse,
+            'exactzero': _run_exactzero,
             'tv': _run_tv}[case['kind']](case)
 
 
@@ -1201,6 +1297,11 @@ def cases(tier, seed):
     cs.append(dict(kind='exactellipse', name='exact-ellipse-frame'))
     cs.append(dict(kind='exactellipse', name='exact-ellipse-twin',
                    twin=True))
+    cs.append(dict(kind='exactzero', name='exact-ellipse-zero-corner-on-curve',
+                   mode='corner-on-curve'))
+    # (mode 'outside' - all four corners outside, through circle_segment and
+    # the recursive split - does not terminate in z3's NRA engine and is not
+    # registered)
     cs.append(dict(kind='exactcore', name='exact-circle-core-twin',
                    twin=True))
     for k in range(4 if tier == 'quick' else 12):
@@ -1231,6 +1332,15 @@ def replay(f):
     if k == 'aper':
         from . import c09
         return c09.replay(f)
+    if k == 'exactzero':
+        if p.get('twin'):
+            return False, 'twin'
+        xmin, ymin = float(w['xmin']), float(w['ymin'])
+        rx, ry = p['axes']
+        got, truth = _zero_concrete(xmin, ymin, rx, ry)
+        return (got < 1e-12 and truth > 0.01), (
+            f'elliptical_overlap_grid(pixel at ({xmin},{ymin}), rx={rx}, '
+            f'ry={ry}) = {got}, sampled overlap {truth}')
     if k == 'area':
         if p.get('twin'):
             return False, 'twin'
